@@ -12,6 +12,12 @@ DATE = 'date::Date'
 OFFSET = 'offset::Offset'
 
 
+# further representation invariants {struct path: {field index: (lo, hi)}}: checked at every construction site by
+# Numeric._agg_hook and assumed for values that come from outside the analysed code
+LOCAL_TIME_TYPE = 'local::timezone::LocalTimeType'
+STRUCT_INV = {LOCAL_TIME_TYPE: {0: (-OFF_MAX, OFF_MAX)}}
+
+
 def apply_invariants(I, st, v, depth=0):
     """refine a freshly built top value with the assumed invariants (assume-guarantee)"""
     if v is None or depth > 8:
@@ -21,6 +27,11 @@ def apply_invariants(I, st, v, depth=0):
         tgt = I.read_resolved(st, ('L',) + v[1])
         apply_invariants(I, st, tgt, depth + 1)
     elif k == 's':
+        for idx, (lo, hi) in STRUCT_INV.get(v[1], {}).items():
+            f = v[2][idx]
+            if f[0] == 'i':
+                l, h = D.get_iv(st, f[1])
+                D.set_iv(st, f[1], max(l, lo), min(h, hi))
         if v[1] == TIME:
             D.set_iv(st, v[2][0][1], 0, NPD - 1)
         elif v[1] == DATETIME:
@@ -226,3 +237,90 @@ def install_splitter_contract(I):
         return contract
     I.contracts['util::time::convert::nanos_to_days_nanos'] = make('util::time::convert::nanos_to_days_nanos', 1)
     I.contracts['util::time::convert::secs_to_days_nanos'] = make('util::time::convert::secs_to_days_nanos', 10**9)
+
+
+def install_tz_partitions(I):
+    """the TZif reader: results of every function of `local::` are joined per shape (same enum variants / error kinds)"""
+    def consts(I_, st, v, out, depth=0):
+        if v is None or depth > 3:
+            return
+        if v[0] == 'i':
+            lo, hi = D.get_iv(st, v[1])
+            out.append(lo if lo == hi else None)
+        elif v[0] in ('t', 'a'):
+            for x in v[1]:
+                consts(I_, st, x, out, depth + 1)
+        elif v[0] == 's':
+            for x in v[2]:
+                consts(I_, st, x, out, depth + 1)
+        elif v[0] == 'e':
+            for vi in sorted(v[2]):
+                for x in v[2][vi]:
+                    consts(I_, st, x, out, depth + 1)
+
+    def part(I_, st, v):
+        out = []
+        consts(I_, st, v, out)
+        return (I_.shape_key(v), tuple(out))
+    I.partition_prefixes['local::'] = part
+
+
+def install_cursor_contracts(I):
+    """client-side summaries of Cursor::read_while / read_until (both are analysed on their own as entry points):
+    they split `remaining` at some index d <= len: data has length d, the new `remaining` has length len - d.
+    For read_while the bytes of `data` all satisfy the predicate (its closure is probed on an unknown byte)."""
+    from .models import deref
+    CUR = 'local::cursor::Cursor'
+    U8 = {'k': 'int', 's': False, 'bits': 8, 'name': 'u8'}
+    USZ = {'k': 'int', 's': False, 'bits': 64, 'name': 'usize'}
+
+    def split(I_, st, ref, flags):
+        cur = deref(I_, st, ref)
+        if cur is None or cur[0] != 's' or cur[1] != CUR or cur[2][0][0] != 'slice':
+            return None
+        rem = cur[2][0][1]
+        lo, hi = D.get_iv(st, rem['len'])
+        d = I_.top(st, USZ, 'taken', lo=0, hi=hi if hi != D.INF else (1 << 63) - 1)
+        D.rel_set(st, d[1], rem['len'], '<=')
+        rest = I_.binop(st, 'Sub', ('i', rem['len'], 'usize'), d, USZ, None, None)
+        if rest[0] != 'i':
+            return None
+        D.set_iv(st, rest[1], 0, (1 << 63) - 1)
+        from .absint import StrV
+        data = {'len': d[1], 'elems': None, 'elem_ty': U8, 'ident': next(StrV._ids)}
+        data.update(flags)
+        newrem = {'len': rest[1], 'elems': None, 'elem_ty': U8, 'ident': next(StrV._ids)}
+        if rem.get('ascii'):
+            newrem['ascii'] = True
+            data.setdefault('ascii', True)
+        I_.write_resolved(st, ('L',) + ref[1], ('s', CUR, (('slice', newrem),), cur[3]))
+        return ('slice', data)
+
+    def read_while(I_, st, args, dty, site):
+        if args[0][0] != 'r':
+            return None
+        s0 = st.clone()
+        b = I_.top(s0, U8, 'byte')
+        cell = ('r', I_.alloc(s0, b))
+        flags = {}
+        r = I_.call_closure(s0, args[1], [cell], site)
+        if r is not None:
+            his = [D.get_iv(s2, b[1]) for s2, v in r if v[0] == 'i' and D.get_iv(s2, v[1])[1] >= 1]
+            if his and all(h[1] <= 127 for h in his):
+                flags['ascii'] = True
+            if his and all(48 <= h[0] and h[1] <= 57 for h in his):
+                flags['digits'] = True
+        s1 = st.clone()
+        v = split(I_, s1, args[0], flags)
+        return None if v is None else [(s1, v)]
+
+    def read_until(I_, st, args, dty, site):
+        if args[0][0] != 'r':
+            return None
+        if len(args) < 2 or args[1][0] != 'i' or D.get_iv(st, args[1][1])[1] > 127:
+            return None     # the summary (and the entry analysis of read_until) is for an ASCII delimiter only: inline the body
+        s1 = st.clone()
+        v = split(I_, s1, args[0], {})
+        return None if v is None else [(s1, v)]
+    I.contracts["local::cursor::Cursor::<'a>::read_while"] = read_while
+    I.contracts["local::cursor::Cursor::<'a>::read_until"] = read_until
